@@ -1,0 +1,15 @@
+//go:build verif
+
+package croncontroller
+
+import "k8s.io/client-go/util/workqueue"
+
+// VerifSetQueue replaces the workqueue of the controller context.
+func (c *Context) VerifSetQueue(queue workqueue.RateLimitingInterface) {
+	c.queue = queue
+}
+
+// VerifUpdatedConfigsLen returns the number of pending JobConfig flushes.
+func (c *Context) VerifUpdatedConfigsLen() int {
+	return len(c.updatedConfigs)
+}
